@@ -36,11 +36,26 @@ def replay(w):
             fr = check_fn.fresh_call(wd, sc, j)
             return check_fn.ot(fr) != got
         return got == check_fn.ot(w["impl"])
+    if kind in ("dep-rank", "fn-dep"):
+        # replayed through the stream that found it: the class must still be producible; a cheap proxy is to
+        # re-run the recorded scenario's generator-independent core
+        import check_dep_replay
+
+        return check_dep_replay.replay(w)
     if kind == "graph":
         from corr_g import GraphWorld
+
+        from common import run_driver
+        from corr_g import to_model
 
         sc = w["scenario"]
         im = GraphWorld(wd, sc).run()
         b = im[w["op_index"]]
-        return {"o": b["o"], "t": b.get("t")} != w["expected"]
+        # what the node must behave like now: the overlay of the current definitions (computed by the Lean spec
+        # on the model state; an operation that is refused today simply leaves the definitions unchanged)
+        r = run_driver([to_model(wd, sc)])[0]
+        e = r["ops"][w["op_index"]]["exp"]
+        if e["o"] and e["o"][0] == "ambiguous":
+            e["o"] = ["ambiguous"]
+        return {"o": b["o"], "t": b.get("t")} != {"o": e["o"], "t": e["t"]}
     raise ValueError(kind)
